@@ -1958,10 +1958,12 @@ class _Duration(Duration):
     def from_timedelta(
         cls, delta: timedelta, *, _1_microsecond: timedelta = timedelta(microseconds=1)
     ) -> "_Duration":
-        total_ms = delta // _1_microsecond
-        seconds = int(total_ms / 1e6)
-        nanos = int((total_ms % 1e6) * 1e3)
-        return cls(seconds, nanos)
+        # integer arithmetic only: seconds and nanos must carry the same sign and
+        # values beyond 2**53 microseconds must not go through a float
+        total_us = delta // _1_microsecond
+        sign = -1 if total_us < 0 else 1
+        seconds, us = divmod(abs(total_us), 10**6)
+        return cls(sign * seconds, sign * us * 1000)
 
     def to_timedelta(self) -> timedelta:
         return timedelta(seconds=self.seconds, microseconds=self.nanos / 1e3)
